@@ -168,7 +168,8 @@ func main() {
 	must(bd.Close())
 	os.RemoveAll(base)
 	leak := crossIndexLeak(base + "x")
-	gen.Emit(map[string]any{"purge": true, "cross_index_leak": leak, "series": n, "dropped": dl, "count_before": before, "count_after_drop": afterDrop,
+	skip := skippedPart(base + "s")
+	gen.Emit(map[string]any{"purge": true, "skipped_part": skip, "cross_index_leak": leak, "series": n, "dropped": dl, "count_before": before, "count_after_drop": afterDrop,
 		"count_after_purge": afterPurge, "expected_after": n - len(dl), "key_no_longer_resolves": lostKey,
 		"not_found_by_own_tag_filter": lostTag, "missing_from_shared_tag_filters": lostZone,
 		"count_after_reopen": afterReopen, "dropped_reappeared_after_reopen": reappeared})
@@ -224,4 +225,76 @@ func crossIndexLeak(base string) []string {
 	must(bd.Close())
 	os.RemoveAll(base)
 	return bad
+}
+
+// skippedPart: the purge of dropped series while one part of the index table carries the in-merge mark (a background merge is
+// reading it - the normal state of a busy table). The purge leaves such a part alone. The dropped ids have reached a part of
+// the deleted-series table (its periodic flush does that within seconds of a DROP SERIES). After the purge the index and the
+// table are closed and opened again: the dropped series must still be hidden.
+func skippedPart(base string) map[string]any {
+	os.RemoveAll(base)
+	const ns = 400
+	seq, seqd := uint64(9000), uint64(1)
+	b, idx := open(base+"/main", 2, 11, &seq)
+	for i := 0; i < ns; i++ {
+		row := influx.Row{Name: "m_0000", Tags: influx.PointTags{{Key: "host", Value: fmt.Sprintf("s%04d", i)}}}
+		row.UnmarshalIndexKeys(nil)
+		rows := []influx.Row{row}
+		d := &dictpool.Dict{}
+		d.Set("m_0000", &rows)
+		must(b.CreateIndexIfNotExists(d, false))
+	}
+	must(b.Close())
+	b, idx = open(base+"/main", 2, 12, &seq)
+	bd, del := open(base+"/del", 0, 12, &seqd)
+	idx.SetDeleteMergeSet(del)
+	must(del.LoadDeletedTSIDs())
+	time.Sleep(1200 * time.Millisecond) // background merges of the reopened table settle
+	tb := idx.VerifC13Table()
+	parts := tb.VerifC13PartCount()
+	cond := func(h string) influxql.Expr {
+		return &influxql.BinaryExpr{Op: influxql.EQ, LHS: &influxql.VarRef{Val: "host", Type: influxql.Tag}, RHS: &influxql.StringLiteral{Val: h}}
+	}
+	dropped := []string{"s0007", "s0200", "s0399"}
+	for _, h := range dropped {
+		ids, err := idx.SearchSeriesByTableAndCond([]byte("m_0000"), cond(h), tsi.DefaultTR)
+		must(err)
+		must(del.WriteDeleteTsids(ids))
+	}
+	del.DebugFlush() // what the periodic flush of the table does
+	all, err := idx.SearchSeriesByTableAndCond([]byte("m_0000"), nil, tsi.DefaultTR)
+	must(err)
+	afterDrop := len(all)
+	for i := 0; i < parts; i++ {
+		tb.VerifC13SetInMerge(i, true)
+	}
+	perr := b.DropSeries() // the purge task: every part is "being merged" and is left alone
+	for i := 0; i < parts; i++ {
+		tb.VerifC13SetInMerge(i, false)
+	}
+	must(b.Close())
+	must(bd.Close())
+	b, idx = open(base+"/main", 2, 13, &seq)
+	bd, del = open(base+"/del", 0, 13, &seqd)
+	idx.SetDeleteMergeSet(del)
+	must(del.LoadDeletedTSIDs())
+	all, err = idx.SearchSeriesByTableAndCond([]byte("m_0000"), nil, tsi.DefaultTR)
+	must(err)
+	back := []string{}
+	for _, h := range dropped {
+		ids, err := idx.SearchSeriesByTableAndCond([]byte("m_0000"), cond(h), tsi.DefaultTR)
+		must(err)
+		if len(ids) != 0 {
+			back = append(back, h)
+		}
+	}
+	must(b.Close())
+	must(bd.Close())
+	os.RemoveAll(base)
+	res := map[string]any{"series": ns, "dropped": len(dropped), "parts_marked_in_merge": parts, "listed_after_drop": afterDrop,
+		"listed_after_purge_and_reopen": len(all), "expected": ns - len(dropped), "dropped_listed_again": back}
+	if perr != nil {
+		res["purge_error"] = perr.Error()
+	}
+	return res
 }
